@@ -628,7 +628,35 @@ def run_tests(res, test_type, m, what):
                 '%s %s: test_all differs from test_%s: %s vs %s' % (
                     what, test_type, nm, core._short(np.asarray(got)), core._short(want)),
                 sg + ':test_all')
+    check_summary_table(res, test_type, p_zero, p_nc, what)
     return p_pair, p_zero, p_nc
+
+
+def _fmt_p(p):
+    return 'nan' if p != p else '< 0.001' if p < 0.001 else '%.3f' % p
+
+
+def check_summary_table(res, test_type, p_zero, p_nc, what):
+    """the table printed by summary(test_type) reports, per model, the p-values of that test type.
+    Only a table of the present layout (name | eval | p | p |) is read; anything else is left alone"""
+    if np.ndim(p_zero) != 1 or np.ndim(p_nc) != 1:
+        return
+    try:
+        txt = res.summary(test_type)
+    except Exception:  # noqa: BLE001  (a summary that cannot be printed is not a C06 matter)
+        return
+    lines = txt.splitlines()
+    for i, mod in enumerate(res.models):
+        rows = [ln for ln in lines if ln.startswith(mod.name + ' ') or ln.startswith(mod.name + '|')]
+        cells = [c.strip() for c in rows[0].split('|')] if len(rows) == 1 else []
+        if len(cells) != 5 or sum(1 for m2 in res.models if m2.name == mod.name) != 1:
+            return
+        for col, p, nm in ((2, p_zero[i], 'against 0'), (3, p_nc[i], 'against NC')):
+            want = _fmt_p(float(p))
+            alt = {_fmt_p(float(p) + d) for d in (-5e-7, 0.0, 5e-7)}      # (rounding at a tie)
+            require(cells[col] in alt, "%s summary(%r): model %r shows p (%s) = %r, test_%s(%r) gives %s" % (
+                what, test_type, mod.name, nm, cells[col], 'zero' if col == 2 else 'noise', test_type,
+                want), 'result:%s:summary-table' % test_type)
 
 
 def degenerate_pairs(ev, test_type):
